@@ -745,11 +745,13 @@ func installRetries(n *harness.Node, r *orch.Result, seed int64, e forge.Eras) f
 	// NullifyBurnAddress finding, which C10 enumerates.)
 	var nextH uint32
 	stmtN, histN := 0, 0
+	sawSnap, afterSnapN, afterSnapHistTx := false, 0, 0
 	inBlock := false
 	vdriver.Set(&vdriver.Hooks{Decide: func(ev *vdriver.Event) (vdriver.Action, time.Duration) {
 		if ev.Kind == vdriver.KBegin {
 			mu.Lock()
 			stmtN, histN = 0, 0
+			sawSnap, afterSnapN, afterSnapHistTx = false, 0, 0
 			inBlock = true
 			mu.Unlock()
 			return vdriver.Proceed, 0
@@ -784,29 +786,45 @@ func installRetries(n *harness.Node, r *orch.Result, seed int64, e forge.Eras) f
 				histN++
 			}
 			h := nextH
-			if retriesHistoryFocus && isHist && h != 0 && h != e.V20Dev && h != e.V202 && pick(h, 0) && !failedDB[h] && (mix(h, 3)%2 == 0 || (h >= e.V20 && h%144 == 0)) {
-				// (C17's runs) the failing statement is one of the block's history writes: the j-th
+			snapH := h >= e.V20 && h%144 == 0
+			if strings.Contains(ev.SQL, "snapshot_current") {
+				sawSnap = true // the snapshot rotation has begun: what follows in a snapshot block is the holders' payout
+			} else if sawSnap {
+				afterSnapN++
+				if strings.Contains(ev.SQL, `"pn_history_transaction"`) {
+					afterSnapHistTx++
+				}
+			}
+			armed := h != 0 && h != e.V20Dev && h != e.V202 && pick(h, 0) && !failedDB[h]
+			fail := func(counter string) (vdriver.Action, time.Duration) {
+				failedDB[h] = true
+				mu.Unlock()
+				r.Count(counter, 1)
+				return vdriver.FailInstead, 0
+			}
+			if armed && retriesHistoryFocus && snapH {
+				// (C17's history-faults runs, snapshot blocks) one of the first payout action rows fails
+				if sawSnap && strings.Contains(ev.SQL, `"pn_history_transaction"`) && afterSnapHistTx == 1+int(mix(h, 7)%3) {
+					return fail("blocks_applied_twice_after_a_failed_history_write")
+				}
+			} else if armed && retriesHistoryFocus && isHist && mix(h, 3)%2 == 0 {
+				// (C17's history-faults runs) the failing statement is one of the block's history writes: the j-th
 				if histN == 1+int(mix(h, 4)%12) {
-					failedDB[h] = true
-					mu.Unlock()
-					r.Count("blocks_applied_twice_after_a_failed_history_write", 1)
-					return vdriver.FailInstead, 0
+					return fail("blocks_applied_twice_after_a_failed_history_write")
 				}
 			}
 			// (at activation and snapshot heights every other failing block keeps to the last statement: what a block
 			// leaves behind in memory is complete only then)
-			lastOnly := (special[h] || (h >= e.V20 && h%144 == 0)) && mix(h, 5)%2 == 0 && !retriesHistoryFocus
-			if h != 0 && h != e.V20Dev && h != e.V202 && pick(h, 0) && !failedDB[h] && !lastOnly {
-				span := uint64(300)
-				if h >= e.V20 && h%144 == 0 {
-					span = 1500 // snapshot blocks: one payout and two history rows per holder
-				}
-				t := 1 + int(mix(h, 6)%span)
-				if stmtN == t {
-					failedDB[h] = true
-					mu.Unlock()
-					r.Count("blocks_applied_twice_after_a_failure_in_mid_block", 1)
-					return vdriver.FailInstead, 0
+			lastOnly := (special[h] || snapH) && mix(h, 5)%2 == 0 && !retriesHistoryFocus
+			if armed && !lastOnly && !(retriesHistoryFocus && snapH) {
+				if snapH {
+					// snapshot blocks: one of the first statements after the rotation (inside the holders' payout, when
+					// there is one; else the last statement fails)
+					if sawSnap && afterSnapN == 1+int(mix(h, 8)%24) {
+						return fail("blocks_applied_twice_after_a_failure_in_mid_block")
+					}
+				} else if stmtN == 1+int(mix(h, 6)%300) {
+					return fail("blocks_applied_twice_after_a_failure_in_mid_block")
 				}
 			}
 			mu.Unlock()
